@@ -22,6 +22,7 @@ structure TokenDesc where
   size : Nat            -- `Info.size`, in bits
   bigEndian : Bool      -- `Info.endianness == Endianness.BIG`
   precode : Bool        -- `Info.precode`
+  init : Nat            -- `bit_value` of a fresh instance `cls()` (x86_64 RexToken starts at 0x40)
   fields : List FieldDesc
   deriving Repr, DecidableEq
 
